@@ -970,7 +970,7 @@ func (fx *FnExec) evalIdent(name string, env *evalEnv) (cval, error) {
 	for _, b := range fx.Fn.Blocks {
 		for _, in := range b.Instrs {
 			al, ok := in.(*ssa.Alloc)
-			if !ok || al.Comment != name {
+			if !ok || !fx.sameName(al.Comment, name) {
 				continue
 			}
 			at := env.at
@@ -1036,14 +1036,14 @@ func (fx *FnExec) localAt(name string, at *ssa.BasicBlock) ssa.Value {
 		for _, in := range b.Instrs {
 			switch x := in.(type) {
 			case *ssa.Phi:
-				if x.Comment == name {
+				if fx.sameName(x.Comment, name) {
 					add(x)
 				}
 			case *ssa.DebugRef:
 				if x.IsAddr {
 					continue
 				}
-				if id, ok := x.Expr.(*ast.Ident); ok && id.Name == name {
+				if id, ok := x.Expr.(*ast.Ident); ok && fx.sameName(id.Name, name) {
 					if _, isConst := x.X.(*ssa.Const); !isConst {
 						add(x.X)
 					}
@@ -1080,14 +1080,14 @@ func (fx *FnExec) localByName(name string, loop *ssa.BasicBlock) ssa.Value {
 	var found []ssa.Value
 	if loop != nil {
 		for _, in := range loop.Instrs {
-			if phi, ok := in.(*ssa.Phi); ok && phi.Comment == name {
+			if phi, ok := in.(*ssa.Phi); ok && fx.sameName(phi.Comment, name) {
 				return phi
 			}
 		}
 	}
 	for _, b := range fx.Fn.Blocks {
 		for _, in := range b.Instrs {
-			if phi, ok := in.(*ssa.Phi); ok && phi.Comment == name {
+			if phi, ok := in.(*ssa.Phi); ok && fx.sameName(phi.Comment, name) {
 				found = append(found, phi)
 			}
 		}
@@ -1106,7 +1106,7 @@ func (fx *FnExec) localByName(name string, loop *ssa.BasicBlock) ssa.Value {
 		for _, in := range b.Instrs {
 			if d, ok := in.(*ssa.DebugRef); ok && d.IsAddr {
 				if al, isAlloc := d.X.(*ssa.Alloc); isAlloc {
-					if id, ok := d.Expr.(*ast.Ident); ok && id.Name == name && cell != ssa.Value(al) {
+					if id, ok := d.Expr.(*ast.Ident); ok && fx.sameName(id.Name, name) && cell != ssa.Value(al) {
 						cell = al
 						cells++
 					}
